@@ -124,7 +124,7 @@ PROPS = {
                 "non-trivial = carries a non-empty text; distinct = distinct line",
     },
     "C01": {
-        "modules": ["BioSeq.Props.C01"],
+        "modules": ["BioSeq.Props.C01", "BioSeq.Props.C01Alphabet"],
         "witness": "Witness/WF.lean",
         "witness_modules": ["BioSeq.Checks.WF"],
         "rule": "parse/display op lines: 7 codecs x 9 entry points x lengths {0..3} + word-boundary lengths (64j/w +-2) x valid texts, "
